@@ -245,8 +245,8 @@ def _run_qvec(case, rec):
             ia, il = key
             k = 2 * math.pi / lams[il]
             _judge_q(rec, g, refs[key], k, what, angle=ANGLES[ia], lam=lams[il])
-            if key in got0 and g != got0[key]:
-                rec.viol(SITE_Q, 'array_vs_scalar', f'{what}: {g} != 0-d result {got0[key]}', angle=ANGLES[ia], lam=lams[il])
+            if key in got0:
+                rec.cls('array_equals_scalar_bitwise' if g == got0[key] else 'array_differs_from_scalar')  # informative only
 
     # wavelength array x 0-d beams
     for ia in (0, 3, 8):
@@ -331,11 +331,15 @@ def _run_hkl(case, rec):
         rec.viol(SITE_UB, 'wrong_unit', f'UB unit {ub.unit}')
     um, bm = U.value, B.value
     want_ub = qvec.ub(um, bm)
-    for i in range(3):
-        for j in range(3):
-            bound = 4 * EPS * sum(abs(um[i][kk]) * abs(bm[kk][j]) for kk in range(3))
-            if abs(hp.mpf(float(ub.value[i][j])) - want_ub[i][j]) > bound:
-                rec.viol(SITE_UB, 'not_u_times_b', f'UB[{i}][{j}]={ub.value[i][j]!r}, U*B={float(want_ub[i][j])!r}')
+
+    def judge_ub(val, what):
+        for i in range(3):
+            for j in range(3):
+                bound = 4 * EPS * sum(abs(um[i][kk]) * abs(bm[kk][j]) for kk in range(3))
+                if abs(hp.mpf(float(val[i][j])) - want_ub[i][j]) > bound:
+                    rec.viol(SITE_UB, 'not_u_times_b', f'{what}: UB[{i}][{j}]={val[i][j]!r}, U*B={float(want_ub[i][j])!r}')
+
+    judge_ub(ub.value, 'kernel')
     rec.observe(ub.value.tolist())
     # what R is, as handed over
     rmat = geom.quat_to_matrix(R.value) if rep == 'quat' else geom.mat(R.value)
@@ -389,8 +393,7 @@ def _run_hkl(case, rec):
     for j, q in enumerate(Q_SET):
         hv = tuple(float(x) for x in ha.values[j])
         judge(hv, q, 'array')
-        if hv != got0[j]:
-            rec.viol(SITE_HKL, 'array_vs_scalar', f'array element {hv} != 0-d {got0[j]}', Q=list(q))
+        rec.cls('array_equals_scalar_bitwise' if hv == got0[j] else 'array_differs_from_scalar')  # informative only
     parts = tof.hkl_elements_from_hkl_vec(hkl_vec=ha)
     if not (np.array_equal(parts['h'].values, ha.fields.x.values) and np.array_equal(parts['k'].values, ha.values[:, 1]) and np.array_equal(parts['l'].values, ha.values[:, 2])):
         rec.viol(SITE_HE, 'lossy_split', 'array h,k,l differ from the vector components')
@@ -412,8 +415,7 @@ def _run_hkl(case, rec):
     rec.cls('graph_route')
     hk = out.coords['hkl_vec'].transpose(['pixel', 'wavelength']).values
     qv = out.coords['Q_vec'].transpose(['pixel', 'wavelength']).values
-    if not np.array_equal(out.coords['ub_matrix'].value, ub.value):
-        rec.viol(SITE_UB, 'graph_differs', 'ub_matrix from the graph differs from the kernel')
+    judge_ub(out.coords['ub_matrix'].value, 'graph route')
     hh = out.coords['h'].transpose(['pixel', 'wavelength']).values
     kk_ = out.coords['k'].transpose(['pixel', 'wavelength']).values
     ll = out.coords['l'].transpose(['pixel', 'wavelength']).values
